@@ -11,15 +11,20 @@ CONSTANT MaxDepth
 
 Pt(fw, n) == [fw EXCEPT !.pt = n]
 Fee1 == <<FeeAct(<<Bps(100, "F1")>>)>>
+Igp(fw) == [fw EXCEPT !.hook = "H_IGP", !.gas = 3, !.maxfee = 5, !.mfd = "ustake"]
 Transfers == { Xfer(0, "uusdc", 10000, FwINT("U"), <<>>), Xfer(0, "uusdc", 10000, Pt(FwINT("U"), 2), <<>>), Xfer(0, "uusdc", 10000, FwINT("U"), Fee1),
                Xfer(0, "uusdc", 10000, FwCCTP(0, "MINT_A", "NONE"), Fee1), Xfer(0, "uusdc", 10000, Pt(FwCCTP(0, "MINT_A", "NONE"), 2), <<>>),
                Xfer(1, "uusdc", 10000, FwHYP("T1", 1, "R_A"), <<>>), Xfer(1, "uusdc", 10000, Pt(FwHYP("T1", 1, "R_A"), 2), Fee1),
-               Xfer(0, "ustake", 10000, FwINT("U"), <<>>), Xfer(0, "ustake", 10000, Pt(FwINT("U"), 2), Fee1), Xfer(1, "ustake", 10000, FwHYP("T2", 2, "R_B"), <<>>),
-               Xfer(0, "uusdc", 10000, FwCCTP(2, "MINT_A", "NONE"), <<>>) }
+               Xfer(0, "ustake", 10000, FwINT("U"), <<>>), Xfer(0, "ustake", 10000, Pt(FwINT("U"), 2), Fee1),
+               \* Hyperlane with a paying hook (interchain gas paymaster charging 3 ustake, max fee 5 ustake)
+               Xfer(1, "uusdc", 10000, Igp(FwHYP("T1", 1, "R_A")), <<>>), Xfer(0, "ustake", 10000, Igp(FwHYP("T2", 2, "R_B")), <<>>) }
 Others == { DepositIn("uusdc", 5), DepositIn("ustake", 5), UpdateParams("AUTH", 64), UpdateParams("AUTH", 0), PauseAction("AUTH", "FEE"), ReimportIn }
 MCAlphabet == Transfers \cup Others
 SmallAlphabet == MCAlphabet
-StepProps == [][ Prop_C11(last') /\ Prop_C18(last') /\ Prop_C01(last') /\ Prop_C02(last') /\ Prop_C12(last') /\ Prop_C09(last') /\ Prop_C17(last') ]_vars
+StepProps == [][ /\ MC_C11(last') /\ MC_C02(last')
+                 /\ Prop_C18(last') /\ Prop_C01(last') /\ Prop_C12(last') /\ Prop_C09(last') /\ Prop_C17(last') ]_vars
+\* the deviation is real in the model too: some reachable IGP step violates C11 (non-vacuity of the exception)
+IgpDeviationReachable == [][ ~(KnownDeviationIGP(last') /\ ~Prop_C11(last')) ]_vars   \* expected to be VIOLATED (run by hand)
 LedgerConsistent == \A d \in Denom : MapThenSumSet(LAMBDA a : st.bal[a][d], Acct) = st.supply[d]
 Depth == TLCGet("level") <= MaxDepth
 View == st
